@@ -32,7 +32,8 @@ from pathlib import Path  # noqa: E402
 import tomli_w  # noqa: E402
 from nauyaca.security import tofu as tofumod  # noqa: E402
 
-HOSTS = {"h1": ("h1.ex", 1965), "h2": ("h2.ex", 1965)}
+# two names that differ only where SQL's LIKE has a wildcard
+HOSTS = {"h1": ("app_1.ex", 1965), "h2": ("app-1.ex", 1965)}
 FPS = {"f1": "sha256:" + "1" * 64, "f2": "sha256:" + "2" * 64}
 FP_INV = {v: k for k, v in FPS.items()}
 FOLLOWUP_HOST = ("unrelated.ex", 1965)
@@ -142,10 +143,39 @@ class FakeCert:
         self.fp = fp
 
 
-def perform(db, op, workdir, rnd):
+def cli(args, home, stdin=""):
+    """The operation through the command line front end (`nauyaca tofu ...`), in process; the store is ~/.nauyaca/tofu.db."""
+    from typer.testing import CliRunner
+    from nauyaca.__main__ import app
+    old = os.environ.get("HOME")
+    os.environ["HOME"] = home
+    try:
+        r = CliRunner().invoke(app, args, input=stdin)
+    finally:
+        if old is None:
+            os.environ.pop("HOME", None)
+        else:
+            os.environ["HOME"] = old
+    if r.exit_code != 0:
+        raise RuntimeError("nauyaca %s exited %s" % (" ".join(args[:3]), r.exit_code))
+
+
+def perform(db, op, workdir, rnd, front="lib"):
     """Run the operation; returns 'ok' or 'raised'."""
     kind = op["kind"]
-    if kind == "trust":
+    home = os.path.join(workdir, "home")
+    if kind == "revokeName":
+        host, port = HOSTS[op["h"]]
+        if front == "cli":
+            cli(["tofu", "revoke", host, "--force"], home)
+        else:
+            db.revoke_by_hostname(host)
+    elif front == "cli" and kind == "revoke":
+        host, port = HOSTS[op["h"]]
+        cli(["tofu", "revoke", host, "--port", str(port)], home)
+    elif front == "cli" and kind == "clear":
+        cli(["tofu", "clear", "--force"], home)
+    elif kind == "trust":
         host, port = HOSTS[op["h"]]
         orig = tofumod.get_certificate_fingerprint
         tofumod.get_certificate_fingerprint = lambda cert: cert.fp
@@ -184,14 +214,24 @@ def perform(db, op, workdir, rnd):
         elif op["policy"] == "raise":
             def cb(*a):
                 raise RuntimeError("conflict callback failed")
-        db.import_toml(Path(p), merge=op["merge"], on_conflict=cb)
+        if front == "cli":
+            # --force accepts every conflict ("update"); otherwise each prompt is answered "n" ("skip") or the input ends
+            # ("raise": the prompt aborts inside the conflict callback)
+            args = ["tofu", "import", p] + ([] if op["merge"] else ["--replace"]) + (["--force"] if op["policy"] == "update" else [])
+            stdin = ("" if op["merge"] or op["policy"] == "update" else "y\n") + ("n\n" * 8 if op["policy"] == "skip" else "")
+            cli(args, home, stdin)
+        else:
+            db.import_toml(Path(p), merge=op["merge"], on_conflict=cb)
     else:
         raise ValueError(kind)
     return "ok"
 
 
-def run_case(path, workdir, store, op, k, kind, rnd_seed):
+def run_case(path, workdir, store, op, k, kind, rnd_seed, front="lib"):
     """Returns (outcome, final store, number of boundaries seen)."""
+    if front == "cli":
+        os.makedirs(os.path.join(workdir, "home", ".nauyaca"), exist_ok=True)
+        path = os.path.join(workdir, "home", ".nauyaca", "tofu.db")
     db = prepare(path, store)
     PLAN.k, PLAN.kind, PLAN.count = k, kind, 0
     rnd = random.Random(rnd_seed)
@@ -200,7 +240,7 @@ def run_case(path, workdir, store, op, k, kind, rnd_seed):
         if pid == 0:
             try:
                 PLAN.armed = True
-                perform(db, op, workdir, rnd)
+                perform(db, op, workdir, rnd, front)
                 os._exit(0)
             except BaseException:
                 os._exit(1)
@@ -210,7 +250,7 @@ def run_case(path, workdir, store, op, k, kind, rnd_seed):
         return outcome, read_store(path), None
     PLAN.armed = True
     try:
-        perform(db, op, workdir, rnd)
+        perform(db, op, workdir, rnd, front)
         outcome = "ok"
     except Exception:  # noqa: BLE001 - any exception is "the operation failed"
         outcome = "raised"
@@ -260,31 +300,39 @@ def main(pid="C12"):
         inits = [s for s in states if s["pc"] == 0 and s["outcome"] == "running"]
         rnd.shuffle(inits)
         if not thorough:
-            inits = inits[:900]
+            # every single-statement operation on every store, and a sample of the imports
+            single = [s_ for s_ in inits if s_["op"]["kind"] != "import"]
+            inits = single + [s_ for s_ in inits if s_["op"]["kind"] == "import"][:max(0, 900 - len(single))]
+            rnd.shuffle(inits)
         cases = []
         nb_total = 0
         crash_cases = 0
+        cli_cases = 0
         for idx, s in enumerate(inits):
             store = plain(s["committed"])
             op = plain(s["op"])
             seed = rnd.randrange(1 << 30)
+            # a third of the operations that have a command go through the command line front end (`nauyaca tofu ...`)
+            front = "cli" if (idx % 3 == 2 and op["kind"] != "trust") else "lib"
+            cli_cases += front == "cli"
             # fault-free run: counts the statement boundaries of this operation
-            outcome, final, nb = run_case(dbpath, work, store, op, None, None, seed)
-            cases.append({"before": store, "op": op, "outcome": outcome, "final": final, "_fault": "none"})
+            outcome, final, nb = run_case(dbpath, work, store, op, None, None, seed, front)
+            cases.append({"before": store, "op": op, "outcome": outcome, "final": final, "_fault": "none", "_front": front})
             nb_total += nb
             for k in range(nb):
                 kind = rnd.choice(["operational", "oserror"])
-                o2, f2, _ = run_case(dbpath, work, store, op, k, kind, seed)
-                cases.append({"before": store, "op": op, "outcome": o2, "final": f2, "_fault": "%s@%d/%d" % (kind, k, nb)})
-                if thorough or (idx % 4 == 0):
-                    o3, f3, _ = run_case(dbpath, work, store, op, k, "crash", seed)
-                    cases.append({"before": store, "op": op, "outcome": o3, "final": f3, "_fault": "kill@%d/%d" % (k, nb)})
+                o2, f2, _ = run_case(dbpath, work, store, op, k, kind, seed, front)
+                cases.append({"before": store, "op": op, "outcome": o2, "final": f2, "_fault": "%s@%d/%d" % (kind, k, nb), "_front": front})
+                if thorough or (idx % 4 == 0) or (front == "cli" and idx % 2 == 0):
+                    o3, f3, _ = run_case(dbpath, work, store, op, k, "crash", seed, front)
+                    cases.append({"before": store, "op": op, "outcome": o3, "final": f3, "_fault": "kill@%d/%d" % (k, nb), "_front": front})
                     crash_cases += 1
         rep.add("evaluations", len(cases))
         rep.set("distinct_nontrivial", len(cases))
         rep.set("operations", len(inits))
         rep.set("statement_boundaries_seen", nb_total)
         rep.set("process_kills", crash_cases)
+        rep.set("operations_through_cli", cli_cases)
         rep.add("traces_validated_against_impl", len(cases))
         for c in cases[:3] + cases[-2:]:
             rep.sample(c)
@@ -313,8 +361,9 @@ def main(pid="C12"):
                     bad.add("OthersUntouched")
                 if bad:
                     rep.violation({"formula": sorted(bad)[0], "kind": c["op"]["kind"], "merge": c["op"]["merge"], "fault": c["_fault"].split("@")[0]},
-                                  "%s falsified: store %s, operation %s, fault %s: ended %s with store %s" % (
-                                      sorted(bad), c["before"], c["op"], c["_fault"], c["outcome"], c["final"]), c)
+                                  "%s falsified: store %s, operation %s (%s), fault %s: ended %s with store %s" % (
+                                      sorted(bad), c["before"], c["op"], "through `nauyaca tofu`" if c.get("_front") == "cli" else "library call",
+                                      c["_fault"], c["outcome"], c["final"]), c)
         round_trip(rep, rnd, work, 400 if thorough else 80)
         rep.set("rule", "every (store, operation) enumerated by TLC x a fault at every statement boundary (injected error in process; "
                 "process kill by fork+_exit for a quarter of the operations in the quick tier, all in thorough); distinct = (store, op, fault point, kind)")
